@@ -33,7 +33,7 @@ func IDs() []string {
 }
 
 const (
-	quickBudget    = 75 * time.Second
+	quickBudget    = 120 * time.Second
 	thoroughBudget = 25 * time.Minute
 )
 
